@@ -5,12 +5,12 @@
 set -u
 id=$1; shift
 checks=${@:-$id}
-src=/tmp/seed-$id/_seed
+root=${SEEDROOT:-/tmp/seed-}$id; src=$root/_seed
 export GOFLAGS=-mod=mod GOPROXY=off GOSUMDB=off GOTOOLCHAIN=local
 wt=/root/scratch/sv-$id
 rm -rf $wt; git -C /repo worktree prune
 git -C /repo worktree add -q --detach $wt HEAD || exit 2
-demo=$(cd /tmp/seed-$id && find pkg -name zz_seed_demo_test.go | head -1)
+demo=$(cd $root && find pkg -name zz_seed_demo_test.go | head -1)
 demodir=$(dirname $demo)
 echo "== $id: patch touches: $(grep '^+++ ' $src/patch.diff | tr '\n' ' ')  demo in $demodir"
 ( cd $wt && git apply $src/patch.diff ) || { echo "PATCH DOES NOT APPLY"; exit 2; }
